@@ -341,10 +341,10 @@ theorem VP.trans {p : Prog} {A : List Nat} {a b c : World} (h1 : VP p A a b) (h2
 /-- what the validity theorem assumes about the program and the set `T` of routines that can be
     called: bodies typed under the by-reference discipline, calls stay inside `T`, distinct
     parameter slots per routine, no by-value parameter slot is a by-reference parameter slot -/
-structure ValCtx (p : Prog) (dyn : Bool) (T : Nat → Prop) : Prop where
+structure ValCtx (p : Prog) (fp dyn : Bool) (T : Nat → Prop) : Prop where
   body : ∀ g, T g → ∀ sd, findSub p g = some sd →
-    wtR (subK false p sd dyn true) false true (if sd.hasRet then 1 else 0) sd.body = true ∧
-    (∀ g', g' ∈ callsOf sd.body → T g') ∧ (sd.params.map (·.2)).Nodup ∧
+    wtR (subK fp p sd dyn true) false true (if sd.hasRet then 1 else 0) sd.body = true ∧
+    (∃ l, (subK fp p sd dyn true).okCalls = some l ∧ ∀ g', g' ∈ l → T g') ∧ (sd.params.map (·.2)).Nodup ∧
     (∀ v, v ∈ valSlots sd → v ∉ allRefSlots p)
 
 /-- a strict typing context of a routine whose reference cells are among those of `A` -/
@@ -362,7 +362,7 @@ structure KV (p : Prog) (T : Nat → Prop) (A : List Nat) (K : RK) : Prop where
 def ArgsValid (p : Prog) (ks : List Bool) (vs : List Val) : Prop :=
   ∀ j, ks[j]? = some true → j < vs.length → ∃ s, vs[j]? = some (.u s) ∧ okAddr p s
 
-structure ValidAll (cx : Ctx) (p : Prog) (dyn : Bool) (T : Nat → Prop) (fuel : Nat) : Prop where
+structure ValidAll (cx : Ctx) (p : Prog) (fp dyn : Bool) (T : Nat → Prop) (fuel : Nat) : Prop where
   ev : ∀ cur e w r w' K bc rc n A, KV p T A K → wtR K bc rc n e = true →
     eval ⟨cx, p, cur⟩ fuel e w = (r, w') → VP p A w w'
   args : ∀ cur es w acc r w' K A, KV p T A K → wtRArgs K es = true →
@@ -380,7 +380,7 @@ structure ValidAll (cx : Ctx) (p : Prog) (dyn : Bool) (T : Nat → Prop) (fuel :
     evalArgs ⟨cx, p, cur⟩ fuel es w acc = (.vals st, w1) → VSet p A w →
     ∃ vs, st = vs.reverse ++ acc ∧ vs.length = es.length ∧ ArgsValid p ks vs
 
-theorem validAll_zero {cx : Ctx} {p : Prog} {dyn : Bool} {T : Nat → Prop} : ValidAll cx p dyn T 0 where
+theorem validAll_zero {cx : Ctx} {p : Prog} {fp dyn : Bool} {T : Nat → Prop} : ValidAll cx p fp dyn T 0 where
   ev := by intro cur e w r w' K bc rc n A _ _ h; simp only [eval] at h; cases h; exact .refl _ _
   args := by intro cur es w acc r w' K A _ _ h; simp only [evalArgs] at h; cases h; exact .refl _ _
   seq := by intro cur es w r w' K bc rc n A _ _ h; simp only [evalSeq] at h; cases h; exact .refl _ _
@@ -390,7 +390,7 @@ theorem validAll_zero {cx : Ctx} {p : Prog} {dyn : Bool} {T : Nat → Prop} : Va
   argsV := by intro cur es ks w acc st w1 K A _ _ _ h; simp only [evalArgs] at h; cases h
 
 section Step
-variable {cx : Ctx} {p : Prog} {dyn : Bool} {T : Nat → Prop} {fuel : Nat}
+variable {cx : Ctx} {p : Prog} {fp dyn : Bool} {T : Nat → Prop} {fuel : Nat}
 
 /-- an opcode of the strict fragment: framed (scratch space untouched), or `vloads` / `vstores`
     through a by-reference parameter of the routine -/
@@ -516,7 +516,7 @@ theorem valid_bind {A : List Nat} {f : Nat} {sd : SubDef} {st vs : List Val} {w1
     · exact hV1 g hgA sdg hsdg v hv
 
 /-- the callee's reference cells are valid when its body starts -/
-theorem valid_entry (ih : ValidAll cx p dyn T fuel) {cur : Option Nat} {f : Nat} {sd : SubDef}
+theorem valid_entry (ih : ValidAll cx p fp dyn T fuel) {cur : Option Nat} {f : Nat} {sd : SubDef}
     {args : List Expr} {w w1 : World} {st : List Val} {K : RK} {bc rc : Bool} {n : Nat} {A : List Nat} (hK : KV p T A K)
     (hw : wtR K bc rc n (.call f args) = true) (hsd : findSub p f = some sd)
     (hpnd : (sd.params.map (·.2)).Nodup) (hvals : ∀ v, v ∈ valSlots sd → v ∉ allRefSlots p)
@@ -534,7 +534,7 @@ theorem valid_entry (ih : ValidAll cx p dyn T fuel) {cur : Option Nat} {f : Nat}
   exact valid_bind hsd hst (by rw [← hst, List.length_reverse]; exact hlen) hav hpnd hvals
     (ih.args cur args w [] _ w1 K _ hK hwa hev hV)
 
-theorem valid_call (hC : ValCtx p dyn T) (ih : ValidAll cx p dyn T fuel) {cur : Option Nat} {f : Nat} {args : List Expr}
+theorem valid_call (hC : ValCtx p fp dyn T) (ih : ValidAll cx p fp dyn T fuel) {cur : Option Nat} {f : Nat} {args : List Expr}
     {w w' : World} {r : Res} {K : RK} {bc rc : Bool} {n : Nat} {A : List Nat} (hK : KV p T A K)
     (hw : wtR K bc rc n (.call f args) = true)
     (h : eval ⟨cx, p, cur⟩ (fuel + 1) (.call f args) w = (r, w')) : VP p A w w' := by
@@ -564,8 +564,9 @@ theorem valid_call (hC : ValCtx p dyn T) (ih : ValidAll cx p dyn T fuel) {cur : 
       · rw [if_neg hlen] at h
         have hlen' : st.reverse.length = sd.params.length := by simpa using hlen
         rcases hbody : eval ⟨cx, p, some f⟩ fuel sd.body (bindW sd st w1) with ⟨r3, w3⟩
-        have hKb : KV p T (f :: A) (subK false p sd dyn true) :=
-          ⟨rfl, rfl, rfl, rfl, rfl, ⟨_, rfl, hcallsb⟩, fun v hv => ⟨f, sd, List.mem_cons_self .., hsd, hv⟩⟩
+        have hKb : KV p T (f :: A) (subK fp p sd dyn true) :=
+          ⟨subK_strictB, subK_callees, subK_refAll, subK_parAll, subK_kinds, hcallsb,
+            fun v hv => ⟨f, sd, List.mem_cons_self .., hsd, by rw [subK_ref] at hv; exact hv⟩⟩
         -- the arguments passed for by-reference parameters are valid references
         have hks : refArgsOk K (sd.params.map (fun kv => kv.1 == .ref)) args = true := by
           unfold callShapeOk at hcs
@@ -592,7 +593,7 @@ theorem valid_call (hC : ValCtx p dyn T) (ih : ValidAll cx p dyn T fuel) {cur : 
       cases h
       exact k1
 
-theorem validAll_succ (hC : ValCtx p dyn T) (ih : ValidAll cx p dyn T fuel) : ValidAll cx p dyn T (fuel + 1) where
+theorem validAll_succ (hC : ValCtx p fp dyn T) (ih : ValidAll cx p fp dyn T fuel) : ValidAll cx p fp dyn T (fuel + 1) where
   ev := by
     intro cur e w r w' K bc rc n A hK hw h
     -- a sub-evaluation followed by a result that keeps its world, or passes it on unchanged
@@ -935,7 +936,7 @@ theorem validAll_succ (hC : ValCtx p dyn T) (ih : ValidAll cx p dyn T fuel) : Va
 
 /-- **Valid references.**  Under the by-reference discipline the reference cells of the active
     routines stay valid throughout every evaluation. -/
-theorem valid_all (hC : ValCtx p dyn T) : ∀ fuel, ValidAll cx p dyn T fuel
+theorem valid_all (hC : ValCtx p fp dyn T) : ∀ fuel, ValidAll cx p fp dyn T fuel
   | 0 => validAll_zero
   | f + 1 => validAll_succ hC (valid_all hC f)
 
